@@ -413,7 +413,7 @@ func diffMaps(real, spec map[string]interface{}) []string {
 
 // runWalk replays one behaviour on a fresh real node; compares after every step from `from`.
 func runWalk(res *mbt.Result, w *World, me int, walk *xWalk, cmpFrom int, myBid string, pfx string) {
-	nd, err := BuildNode(w, me, Opts{Fresh: true})
+	nd, err := BuildNode(w, me, Opts{Fresh: true, WaitTxs: os.Getenv("NODE_WAITTXS") == "1"})
 	if err != nil {
 		res.Mismatch("infra:buildnode", err.Error(), nil)
 		return
